@@ -14,6 +14,7 @@ import (
 	"time"
 
 	"github.com/vimeo/dials"
+	"github.com/vimeo/dials/sourcewrap"
 
 	"verifharness/internal/coqfmt"
 )
@@ -38,6 +39,7 @@ type opT struct {
 	Zero bool   `json:"zero,omitempty"` // register with the zero CfgSerial
 	H    int    `json:"h,omitempty"`
 	Msg  *msgT  `json:"msg,omitempty"`
+	Via  string `json:"via,omitempty"` // offer through Blank.SetSource: "static" or "watcher" inner source
 }
 
 type label struct {
@@ -55,6 +57,7 @@ type setupT struct {
 	Suppress bool     `json:"suppress"`
 	Def      [3]int   `json:"def"`
 	Watching []bool   `json:"watching"`
+	Blank    []bool   `json:"blank,omitempty"` // the source is a sourcewrap.Blank (its updates go through SetSource)
 	Inits    []svJSON `json:"inits"`
 }
 
@@ -190,6 +193,8 @@ type world struct {
 	diverged   int // explicit labels that could not be executed as recorded
 	twoArm     int // receives of the monitor with more than one ready arm
 	divergedAt string
+	blanks     map[int]*sourcewrap.Blank
+	blankLock  map[int]bool // a Watcher was handed to the Blank: SetSource is no longer allowed
 	tokens     map[int]dials.CfgSerial[Cfg]
 
 	steps  []string // printed (label, obs) pairs
@@ -269,10 +274,19 @@ func (w *world) start() (verifs string, res int, init string) {
 		in := w.setup.Inits[i]
 		s := &source{r: r, idx: i, init: sv{A: ip(in.A), B: ip(in.B), C: ip(in.C), Bad: in.Bad}}
 		r.srcs = append(r.srcs, s)
-		if w.setup.Watching[i] {
+		switch {
+		case i < len(w.setup.Blank) && w.setup.Blank[i]:
+			w.hasMon = true
+			b := &sourcewrap.Blank{}
+			if w.blanks == nil {
+				w.blanks, w.blankLock = map[int]*sourcewrap.Blank{}, map[int]bool{}
+			}
+			w.blanks[i] = b
+			srcs = append(srcs, b)
+		case w.setup.Watching[i]:
 			w.hasMon = true
 			srcs = append(srcs, watchingSource{s})
-		} else {
+		default:
 			srcs = append(srcs, s)
 		}
 	}
@@ -490,6 +504,18 @@ func (w *world) execStart(l label) {
 		m := op.Msg
 		s := w.r.srcs[m.Src]
 		t.pc = "offer"
+		if op.Via != "" {
+			// Blank.SetSource: Value of the inner source, then the blocking report
+			b := w.blanks[m.Src]
+			val := sv{A: ip(m.V.A), B: ip(m.V.B), C: ip(m.V.C), Bad: m.V.Bad}
+			var inner dials.Source = innerStatic{val}
+			if op.Via == "watcher" {
+				w.blankLock[m.Src] = true
+				inner = innerWatcher{innerStatic{val}, s, w.r}
+			}
+			w.spawn(t, func() (string, string) { return errClass(b.SetSource(t.ctx, inner)) })
+			break
+		}
 		w.spawn(t, func() (string, string) {
 			switch m.K {
 			case "update":
@@ -864,6 +890,13 @@ func (w *world) applicable(l label) bool {
 			if l.Op.Msg == nil || l.Op.Msg.Src >= len(w.setup.Watching) || !w.setup.Watching[l.Op.Msg.Src] || w.offerer() != nil {
 				return false
 			}
+			src := l.Op.Msg.Src
+			if l.Op.Via != "" {
+				return w.isBlank(src) && !w.blankLock[src] && !w.blankBusy(src) && l.Op.Msg.K == "update" && l.Op.Msg.Blocking
+			}
+			if w.isBlank(src) && (!w.hasWA(src) || w.blankBusy(src)) {
+				return false
+			}
 		case "register":
 			for _, tid := range w.order {
 				if t := w.threads[tid]; t.op.K == "register" && t.op.H == l.Op.H {
@@ -917,4 +950,43 @@ func (w *world) replay(ls []label) {
 		}
 		w.do(l)
 	}
+}
+
+// inner sources handed to a Blank
+type innerStatic struct{ v sv }
+
+func (i innerStatic) Value(ctx context.Context, t *dials.Type) (reflect.Value, error) {
+	return mkValue(t, i.v), nil
+}
+
+type innerWatcher struct {
+	innerStatic
+	s *source
+	r *runner
+}
+
+func (i innerWatcher) Watch(ctx context.Context, t *dials.Type, wa dials.WatchArgs) error {
+	i.r.mu.Lock()
+	i.s.wa, i.s.typ = wa, t
+	i.r.mu.Unlock()
+	return nil
+}
+
+func (w *world) isBlank(src int) bool { return w.blanks != nil && w.blanks[src] != nil }
+
+// a SetSource call on this Blank is still under way (it holds the Blank's mutex)
+func (w *world) blankBusy(src int) bool {
+	for _, tid := range w.order {
+		if t := w.threads[tid]; t.op.K == "offer" && t.op.Via != "" && t.op.Msg.Src == src && t.pc != "done" {
+			return true
+		}
+	}
+	return false
+}
+
+// the WatchArgs of a source, once it has them (a Blank's are handed to its Watcher inner source)
+func (w *world) hasWA(src int) bool {
+	w.r.mu.Lock()
+	defer w.r.mu.Unlock()
+	return w.r.srcs[src].wa != nil
 }
